@@ -105,3 +105,87 @@ prop("C05", "TestC05", q, t,
      level_text="Generated-input search over strings x positions x four encoders x escaping modes x validity switch with the oracles named in the rule.",
      level_note="Trusted: encoding/xml as validity judge. Element text is compared after the documented trimming.",
      design_ref="DESIGN.md section 4, C05")
+
+q, t = tiers(25000, 600000)
+prop("C06", "TestC06", q, t,
+     rule="two clauses: (roundtrip) JSON-shaped Maps with keys/strings over an alphabet rich in < > &, backslashes, quotes, control characters and the literal texts \\u003c \\u003e \\u0026, "
+          "encoded with Json/JsonIndent (safe on/off, blank prefix/indent), the Writer/Raw forms, j2x.MapToJson and Copy; (diff) byte strings - encodings of generated values, "
+          "35 hostile literals, and 0-2 local mutations of them (truncate, overwrite, insert, delete, duplicate tail) - decoded by NewMapJson and by a plain json.Decoder, with and without UseNumber. "
+          "Non-trivial: (roundtrip) some string holds < > & or a literal \\u00xx text; (diff) the reference accepts, or the input is a mutation; distinct = hash of the case.",
+     bounds="depth <= 4, <= 4 entries per map, strings of <= 6 tokens, inputs <= ~300 bytes",
+     technique="property-based testing (rapid): round trip + byte-level invariants on the encoder, differential against encoding/json on the decoder; native fuzzing of the differential in the thorough tier",
+     level_text="Generated-input search: encoder output must be valid JSON, decode back to the identical Map, contain no literal < > & when safe and exactly the data's when not; "
+                "writer/wrapper forms must return the same bytes; NewMapJson must accept/reject and decode exactly like encoding/json (arrays wrapped under 'object').",
+     level_note="Trusted: encoding/json. Narrowing: valid UTF-8 strings, finite floats. No claim for an array followed by trailing junk (leniency 8).",
+     design_ref="DESIGN.md section 4, C06")
+
+q, t = tiers(12000, 400000)
+prop("C08", "TestC08", q, t,
+     rule="shape-first Maps (with and without lists nested in lists; 20% from boosters for list-in-list and for sibling maps over a small key/value alphabet), a key (present at several depths, inside lists, absent, '*'), "
+          "0-3 sub-key conditions (typed string/bool/number, '*', '!', alternative separators), half of them drawn from entries of actual candidates; the filter is applied through ValuesForKey or ValuesForPath. "
+          "Non-trivial: the key occurs at >=2 depths or inside a list, or at least one candidate passes the filter and one fails; distinct = hash of the case.",
+     bounds="shape depth <= 5, lists <= 5 members (33-80 wide), <= 3 conditions, path length <= 6",
+     technique="property-based testing (rapid): reference walkers for key search and path collection, cross-consistency of three APIs, three-valued reference predicate bounding the filtered result (must subset result subset may)",
+     level_text="Generated-input search: ValuesForKey/ValueForKey vs a reference walker (multisets), PathsForKey/PathForKeyShortest vs a reference path set (no duplicates, minimal length), "
+                "the union of ValuesForPath over those paths vs ValuesForKey, and sub-keys as a pure filter of the unfiltered result under the documented predicate.",
+     level_note="Trusted: the reference walkers and predicate. '!k:v' on a map lacking k is treated as unspecified (leniency 2) and counted.",
+     design_ref="DESIGN.md section 4, C08")
+
+q, t = tiers(12000, 400000)
+prop("C09", "TestC09", q, t,
+     rule="shape-first Maps decorated with attribute ('prefix+name') and '#text' entries, a two-list-level booster, and Maps over exotic keys ('', 'x.y', 'q[0]', '*', '[', ' '); "
+          "options: attribute prefix in {-,@,attr_,''}, dot notation, no-attributes. Non-trivial: >=2 leaves and a list on some leaf path; distinct = hash of the case.",
+     bounds="shape depth <= 5; exotic maps depth <= 4",
+     technique="property-based testing (rapid): reference leaf enumeration, resolution of every leaf path through ValuesForPath, projection and wrapper agreement",
+     level_text="Generated-input search: LeafNodes must equal the reference (path,value) multiset (value multiset for exotic keys), every leaf path must resolve through ValuesForPath to exactly its value "
+                "(default options, safe keys), LeafPaths/LeafValues must be projections, the no-attributes option must remove exactly prefixed entries and the text segment, j2x/x2j wrappers must agree.",
+     level_note="Trusted: reference enumeration (30 lines). Lists directly inside lists are outside the property's domain.",
+     design_ref="DESIGN.md section 4, C09")
+
+q, t = tiers(12000, 400000)
+prop("C10", "TestC10", q, t,
+     rule="shape-first Maps and plain/wildcard paths (10% from a booster with a list as the node before the last key), key = last path segment (form 1) or another key (form 2), 0-2 sub-key conditions, "
+          "new value as single-entry map / mxj.Map (unique sentinel scalar or small map) or as 'key:value[:type]' string with ':' or '|' separator; wrappers j2x.JsonUpdateValsForPath / x2j.XmlUpdateValsForPath. "
+          "Non-trivial: at least one mandatory target AND another entry under the same key that must not change; distinct = hash of the case.",
+     bounds="shape depth <= 5, path length <= 6, <= 2 conditions",
+     technique="property-based testing (rapid): reference classification of every concrete position as mandatory/optional/forbidden, frame condition by structural diff, count check, update-then-query relation, differential string form vs map form",
+     level_text="Generated-input search: after the call the set R of positions holding the new value must satisfy mandatory subset R subset mandatory+optional, nothing else may differ (frame), "
+                "the returned count must equal |R|, count 0 must leave the Map untouched, form 1 without sub-keys must make ValuesForPath yield count copies, and the string form and wrappers must agree with the map form.",
+     level_note="Trusted: refUpdateSets. Optional (unspecified) positions: creating a missing last key, unspecified conditions, member-level/form-2 targets below a list parent with '*' (leniencies 2-4); counted per run.",
+     design_ref="DESIGN.md section 4, C10")
+
+q, t = tiers(8000, 250000)
+prop("C11", "TestC11", q, t,
+     rule="histories of 1-12 operations (set, remove, rename, query) generated against a plain nested-map model: paths follow existing keys with probability 5/6 per segment, new names from the key alphabet "
+          "(so 'already exists beside it' is frequent) plus fresh names; Maps of nested maps with scalar, null, empty-map and non-empty list values. "
+          "Non-trivial: an operation succeeded on a Map with >=3 entries, or a rename was refused for an existing sibling; distinct = hash of (Map, history).",
+     bounds="Map depth <= 4, <= 4 keys per map, histories <= 12 operations, paths <= 4 segments",
+     technique="model-based (stateful) property testing with rapid: the history is run on the Map and on a reference model, compared after every step",
+     level_text="Generated-history search: after every applicable operation the Map must equal the model (exactly one entry changed) and the post-condition must hold; after every inapplicable one "
+                "(missing path, non-map parent, existing sibling) the Map must be unchanged, a refused rename must return an error, and nothing may panic.",
+     level_note="Trusted: the 60-line model. Setting below a list lies outside 'dot-paths through nested maps': only the frame (<=1 entry, none with an error) is enforced there and counted.",
+     design_ref="DESIGN.md section 4, C11")
+
+q, t = tiers(12000, 400000)
+prop("C12", "TestC12", q, t,
+     rule="shape-first Maps and 1-5 key pairs: old = plain/wildcard/indexed shape path, new = dot-path over a 4-name alphabet (equal/extending new paths frequent) or the 'old' shorthand; 4% malformed pairs. "
+          "Non-trivial: >=2 pairs with non-empty results and at least one projected value that is a map; distinct = hash of the case.",
+     bounds="shape depth <= 5, <= 5 pairs, new paths <= 3 segments",
+     technique="property-based testing (rapid): receiver frame condition (deep copy before/after, two calls), expected projection built from the C07 reference evaluator, malformed-pair error oracle, j2x wrapper differential",
+     level_text="Generated-input search: the receiver must be deeply equal to its copy after every call (also with overlapping new paths); without overlap the result must equal the Map built from refEval(old) per pair "
+                "(multisets for wildcard pairs) and nothing else; malformed pairs must return an error.",
+     level_note="Trusted: refEval and the expected-map builder.",
+     design_ref="DESIGN.md section 4, C12")
+
+q, t = tiers(6000, 200000)
+prop("C13", "TestC13", q, t,
+     rule="1-5 generated XML documents (Map and sequence styles) or JSON objects (keys/strings with braces, quotes, backslashes, a trailing escaped backslash; compact or indented) concatenated with whitespace runs; "
+          "a reader schedule of 0-60 actions (deliver min(k,len(p),rest) bytes for k in {1,2,3,7,64} or (0,nil)), final bytes with or before io.EOF, bare or behind a 16-byte bufio.Reader; "
+          "APIs: reader, raw, bulk handlers (stopping at the j-th document) and x2j-wrapper.XmlMsgsFromReader. "
+          "Non-trivial: >=2 documents AND (a (0,nil) read was delivered OR a multi-byte read spanned a document boundary OR data came with io.EOF); distinct = hash of the case.",
+     bounds="<= 5 documents of depth <= 3, schedules <= 60 actions",
+     technique="property-based testing (rapid) with a harness-owned io.Reader schedule: stream decoding vs direct decoding of each document's bytes; raw-capture prefix/containment invariants",
+     level_text="Generated-schedule search: every reader API must deliver exactly the Maps that direct decoding of each document gives, in order, then io.EOF; raw values must concatenate to a prefix of the stream "
+                "(JSON: modulo insignificant whitespace) and contain their document; handlers must be called once per document and stop on false without over-reading.",
+     level_note="The schedule is owned by the harness, so this is exhaustive in kind but sampled in combination. JSON raw is compared modulo whitespace outside strings (leniency 1).",
+     design_ref="DESIGN.md section 4, C13")
